@@ -22,6 +22,9 @@ type c20ProofCase struct {
 	Via    string `json:"via"` // "tx" | "tx_search" (by height, ascending) | "tx_search_desc"
 	Height int64  `json:"height"`
 	Index  int    `json:"index"`
+	// via range_asc / range_desc: TxSearch over heights Height..Hi, every page of PerPage results
+	Hi      int64 `json:"hi,omitempty"`
+	PerPage int   `json:"per_page,omitempty"`
 }
 
 func c20WideSpec(n int) c20ChainSpec {
@@ -38,7 +41,64 @@ func c20WideSpec(n int) c20ChainSpec {
 	return s
 }
 
+// c20CheckRange: a search over a range of heights (several blocks in one result set), every page; each result's proof
+// must verify against the data hash of the block that result names and prove exactly that result's transaction.
+func c20CheckRange(ch *c20Chain, c c20ProofCase, r *vr.Report) (key, what string) {
+	order := "asc"
+	if c.Via == "range_desc" {
+		order = "desc"
+	}
+	q := fmt.Sprintf("tx.height>=%d AND tx.height<=%d", c.Height, c.Hi)
+	seen := 0
+	for page := 1; ; page++ {
+		pp := c.PerPage
+		pg := page
+		res, err := core.TxSearch(c20Ctx, q, true, &pg, &pp, order)
+		if err != nil {
+			if page > 1 && seen > 0 {
+				break // page past the end
+			}
+			if seen == 0 && page == 1 {
+				empty := true
+				for h := c.Height; h <= c.Hi; h++ {
+					empty = empty && len(ch.blocks[h].Data.Txs) == 0
+				}
+				if empty {
+					r.Outcome(c.Via + ":empty-range")
+					return "", ""
+				}
+			}
+			return "rpc/core/tx.go:TxSearch:error", fmt.Sprintf("TxSearch(%s, page %d, per page %d, %s): %v", q, page, pp, order, err)
+		}
+		for _, x := range res.Txs {
+			seen++
+			blk := ch.blocks[x.Height]
+			// (a transaction included again later is served at its last occurrence, possibly outside the range: the index keeps
+			// one record per hash; the statement only asks that the proof verifies against the block the answer names)
+			if blk == nil {
+				return "rpc/core/tx.go:" + c.Via + ":proof-refers-to-unknown-block", fmt.Sprintf("%s: answer names height %d", q, x.Height)
+			}
+			if err := x.Proof.Validate(blk.DataHash); err != nil {
+				return "rpc/core/tx.go:TxSearch:multi-block-result:proof-does-not-verify-against-data-hash",
+					fmt.Sprintf("TxSearch(%s, page %d, per page %d, %s): result at height %d index %d (tx %q): proof against that block's DataHash: %v", q, page, pp, order, x.Height, x.Index, []byte(x.Tx), err)
+			}
+			if !bytes.Equal(x.Proof.Data, x.Tx) || x.Proof.Proof.Index != int64(x.Index) || int(x.Index) >= len(blk.Data.Txs) || !bytes.Equal(blk.Data.Txs[x.Index], x.Tx) {
+				return "rpc/core/tx.go:TxSearch:multi-block-result:proof-is-for-another-leaf",
+					fmt.Sprintf("TxSearch(%s, page %d, per page %d, %s): result at height %d index %d is tx %q but the proof proves leaf %d (%q)", q, page, pp, order, x.Height, x.Index, []byte(x.Tx), x.Proof.Proof.Index, []byte(x.Proof.Data))
+			}
+		}
+		if len(res.Txs) == 0 || seen >= res.TotalCount {
+			break
+		}
+	}
+	r.Outcome(fmt.Sprintf("%s:all-proofs-ok", c.Via))
+	return "", ""
+}
+
 func c20CheckProof(ch *c20Chain, c c20ProofCase, r *vr.Report) (key, what string) {
+	if c.Via == "range_asc" || c.Via == "range_desc" {
+		return c20CheckRange(ch, c, r)
+	}
 	want := ch.blocks[c.Height].Data.Txs[c.Index]
 	var got *ctypes.ResultTx
 	switch c.Via {
@@ -102,7 +162,7 @@ func c20CheckProof(ch *c20Chain, c c20ProofCase, r *vr.Report) (key, what string
 func TestVerifC20CoreProofs(t *testing.T) {
 	r := vr.Start("C20", "coreproofs", 60*time.Second, 5*time.Minute)
 	defer r.Finish()
-	r.Rule = "every (chain, block, index) x {Tx, TxSearch by height ascending, descending} with prove=true on the real rpc/core handlers; non-trivial = proofs with at least one aunt " +
+	r.Rule = "every (chain, block, index) x {Tx, TxSearch by height ascending, descending} and every (chain, range of heights lo<hi, order, page size 1/3/100, every page) with prove=true on the real rpc/core handlers; non-trivial = proofs with at least one aunt " +
 		"(blocks of 2..N transactions), duplicates inside a block / across blocks counted too"
 	r.Assume("DataHash ground truth is the header the real executor produced for the transaction list the harness chose")
 	specs := append(c20Specs(), c20WideSpec(vr.Pick(9, 17)))
@@ -120,7 +180,7 @@ func TestVerifC20CoreProofs(t *testing.T) {
 		ch := chains[c.Chain]
 		ch.activate()
 		r.Eval()
-		if len(ch.blocks[c.Height].Data.Txs) > 1 {
+		if len(ch.blocks[c.Height].Data.Txs) > 1 || c.Hi > c.Height {
 			r.NTCount(1)
 		}
 		if key, what := c20CheckProof(ch, c, r); key != "" {
@@ -158,6 +218,26 @@ func TestVerifC20CoreProofs(t *testing.T) {
 					run(c)
 					if k%40 == 1 {
 						r.Sample(c)
+					}
+				}
+			}
+		}
+	}
+	// searches whose result set spans several blocks: every range of heights, both orders, pages of 1 / 3 / 100
+	for _, s := range specs {
+		ch := chains[s.Name]
+		for lo := int64(1); lo <= ch.tip; lo++ {
+			for hi := lo + 1; hi <= ch.tip; hi++ {
+				for _, via := range []string{"range_asc", "range_desc"} {
+					for _, pp := range []int{1, 3, 100} {
+						k++
+						if !r.Mine(k) {
+							continue
+						}
+						if pp == 1 && hi-lo > 3 && !vr.Thorough() {
+							continue
+						}
+						run(c20ProofCase{Chain: s.Name, Via: via, Height: lo, Hi: hi, PerPage: pp})
 					}
 				}
 			}
